@@ -510,6 +510,25 @@ func (e *Env) call(ex *Expr) Value {
 		}
 		return e.x.convert(e.st, v, nil, bt, "")
 	}
+	if len(args) == 1 {
+		// conversion to a named basic type of the package, e.g. DataOrder(0)
+		pkgPath := pkgTensor
+		if e.x.fn != nil && e.x.fn.Pkg != nil {
+			pkgPath = e.x.fn.Pkg.Pkg.Path()
+		}
+		if nt := e.x.P.lookupType(pkgPath + "." + name); nt != nil {
+			if _, isBasic := nt.Underlying().(*types.Basic); isBasic {
+				v := e.eval(args[0]).(Scalar)
+				ts := sortOf(nt)
+				if n, isLit := v.T.IsLit(); isLit && strings.HasPrefix(ts, "(_ BitVec ") {
+					var w int
+					fmt.Sscanf(ts, "(_ BitVec %d)", &w)
+					return Scalar{Term{fmt.Sprintf("(_ bv%d %d)", n, w), ts}}
+				}
+				return e.x.convert(e.st, v, nil, nt, "")
+			}
+		}
+	}
 	switch name {
 	case "len":
 		switch v := e.eval(args[0]).(type) {
@@ -727,6 +746,19 @@ func (e *Env) call(ex *Expr) Value {
 		}
 		iv := e.eval(args[0]).(IfaceV)
 		return Scalar{Eq(iv.Tag, IntLit(int64(e.x.P.typeTag(bt))))}
+	case "asptr":
+		// asptr("tensor.Dense", x): the *Dense behind interface value x (its dynamic type is assumed)
+		nt := e.x.P.lookupType(args[0].Name)
+		if nt == nil {
+			e.fail("asptr: unknown type %q", args[0].Name)
+		}
+		switch v := e.eval(args[1]).(type) {
+		case IfaceV:
+			return PtrV{Kind: PHeap, Ref: v.Val, Root: nt}
+		case PtrV:
+			return v
+		}
+		e.fail("asptr of non-interface")
 	case "niliface":
 		return IfaceV{IntLit(0), IntLit(0)}
 	case "fst":
